@@ -216,6 +216,12 @@ def spelling_items():
             for lt in lit:
                 items.append(("lit-right", o, t, lt, None, None))
                 items.append(("lit-left", o, lt, t, None, None))
+        for l in SPELLABLE:
+            for r in SPELLABLE:
+                # the operand variables were used before (their types have taken part in other expressions);
+                # the application is the right-hand side of an assignment
+                items.append(("prior-use", o, l, r, None, None))
+                items.append(("assigned", o, l, r, None, None))
         for l in SPELLABLE[:3]:
             for r in SPELLABLE[:3]:
                 for o2 in ("*", "+", "<", "/"):
@@ -240,6 +246,17 @@ def spelling_case(ctx, case):
     elif variant == "lit-left":
         src = "export function f ( %s b ) -> int { return k ( %s %s b ) ; }\n" % (M.tname(r), lit[l], o)
         what = "%s %s %s" % (lit[l], o, M.tname(r))
+    elif variant == "prior-use":
+        src = "export function f ( %s a , %s b ) -> int { %s t = a + a ; %s u = b - b ; return k ( a %s b ) ; }\n" % (
+            M.tname(l), M.tname(r), M.tname(l), M.tname(r), o)
+        what = "%s %s %s after a + a and b - b" % (M.tname(l), o, M.tname(r))
+    elif variant == "assigned":
+        if exp[0] != "accept":
+            rt = "int"
+        else:
+            rt = M.tname(exp[1])
+        src = "export function f ( %s a , %s b ) -> int { %s r ; r = a %s b ; return k ( r ) ; }\n" % (M.tname(l), M.tname(r), rt, o)
+        what = "r = %s %s %s" % (M.tname(l), o, M.tname(r))
     else:
         inner = "( a %s b )" % o
         whole = "%s %s c" % (inner, o2) if variant == "nested-left" else "c %s %s" % (o2, inner)
@@ -271,6 +288,19 @@ def spelling_case(ctx, case):
     if not call or call[-1].Function != want_name:
         ctx.fail("e2e|overload|" + reg, "%s: the call resolved to %s, expected %s\n%s" % (what, call[-1].Function if call else None, want_name, src), case)
         return
+    bins = [i for i in fn.Instructions if type(i).__name__ == "BinaryInstruction"]
+    if variant in ("assigned", "prior-use") and o not in M.CMP and bins:
+        # "each operand is converted to the component type of the result": the operands that reach the (last)
+        # binary instruction carry the converted types
+        # (the lowering may split a matrix operation into rows or swap scalar and vector: only the COMPONENT type
+        # of what reaches the last operation is prescribed)
+        b = bins[-1]
+        for k, v in enumerate(b.Values):
+            got_t = _ir_type(v.Type)
+            if got_t[0] in "svm" and got_t[1] != exp[1][1]:
+                ctx.fail("e2e|operand-not-converted|" + reg, "%s: an operand reaches the operation as %s, the result's component type is %s\n%s" % (
+                    what, v.Type, exp[1][1], adapter.listing(c.ir)[-900:]), case)
+                return
     if variant.startswith("nested"):
         # the nested application keeps ITS OWN type: the first binary instruction is `a o b`
         bins = [i for i in fn.Instructions if type(i).__name__ == "BinaryInstruction"]
@@ -300,7 +330,7 @@ def run(R):
     R.enum("interface", iface_items, iface_case)
     R.enum("end-to-end", lambda: [(o, l, r) for o in M.ALL_OPS for l in SPELLABLE for r in SPELLABLE], e2e_case)
     R.enum("end-to-end-spellings", spelling_items, spelling_case)
-    for v in ("lit-left", "lit-right", "nested-left", "nested-right"):
+    for v in ("lit-left", "lit-right", "nested-left", "nested-right", "prior-use", "assigned"):
         R.require("spelling:" + v)
     R.require("expected-accept")
     R.require("expected-reject")
